@@ -1137,7 +1137,7 @@ func main() {
 	b.WriteString(hdr)
 	b.WriteString("Definition dups : list tdup := [\n")
 	rows = nil
-	for _, fn := range []string{"zduplicate.go", "duplicate.go"} {
+	for _, fn := range []string{"zduplicate.go", "duplicate.go", "edns.go", "privaterr.go"} {
 		f := parseFile(fn)
 		for _, m := range methods(f, "isDuplicate") {
 			cm := transDupBody(fn, m.typ, m.decl.Body)
